@@ -66,6 +66,7 @@ def monitor(ctx, sess, regs):
         cmds.append(['wfb', m])
         rs.append(r)
     outs = fw.batch_parallel(build.DRIVER, cmds)
+    ctx.corr_cases += len(cmds)
     bad = []
     for r, o in zip(rs, outs):
         ctx.count('monitor:wfb=' + dump(o))
